@@ -20,7 +20,10 @@ from discretisedfield.tools import tools as dftt
 PID = "C19"
 RULE = ("Through the public tools API on anisotropic dyadic meshes with masks: (tcd) topological_charge_density/topological_charge, both "
         "methods, on uniform / random / rational-sphere / skyrmion / partly-zero textures; (blint) skyrmion textures of winding number "
-        "1..2 and either polarity with uniform rim; (emergent) emergent_magnetic_field on 3-d meshes; (angle) neighbouring_cell_angle "
+        "1..2 and either polarity with uniform rim; (blsheet) closed sheets of EXACT unit vectors (integer vectors of integer length: rational "
+        "skyrmions of winding 1 and 2, rough random textures, tetrahedral inner cells) - the model decides the hypotheses of the integrality "
+        "theorems (closed sheet / smooth sheet, decision procedures proved sound), the real code's Berg-Luescher charge must then be a "
+        "half-integer resp. an integer; (emergent) emergent_magnetic_field on 3-d meshes; (angle) neighbouring_cell_angle "
         "in every direction and both units, max_neighbouring_cell_angle - base stream (generic angles, lengths 0.3..15) and stream 'len': "
         "vector-LENGTH regimes (normalised to rounding; 1 +- 1e-2..1e-16 per cell or common; unit vectors rounded through single precision; "
         "one common length 3e-7..1e100, e.g. 8e5; per-cell lengths over 1e-6.5..1e6.5 and 1e20..1e120; mostly normalised with outliers) x "
@@ -60,22 +63,35 @@ ASSUMPTIONS = ["binary64 rounding of the tools' arithmetic stays below 1e-9 of t
                "1e-9-scaled skyrmion is 0) and raises UFuncTypeError on the latter; VERIF_C19_OPEN=1 adds both streams (reported to the lead)",
                "textures used for rotation / rescaling checks are generic (no exactly coplanar neighbour triples), because bergluescher_angle's "
                "guard `triple product == 0` is an exact float test"]
-UNPROVED = ["Berg-Luescher integrality for textures wrapping the sphere a whole number of times (degree of a simplicial map): oracle only "
-            "(skyrmion textures of winding 1-2, both polarities, uniform rim)",
+UNPROVED = ["Berg-Luescher integrality: PROVED for the real solid-angle formula on closed sheets (all cells valid, uniform rim of a unit vector, "
+            "exact unit vectors, no antipodal neighbours, no exceptional triangle): 2Q is an integer (bl_charge_half_integer; Q is the mean of the "
+            "degrees of the two triangulations of the lattice and CAN be a half-integer - the real code returns +-1/2 for four tetrahedral inner "
+            "cells), and Q itself is an integer when every lattice triangle covers less than a quarter of the sphere (bl_charge_integer); the exact "
+            "hypothesis on an abstract solid-angle function is stated and proved for the model's own charge (bl_charge_coboundary: coboundary of an "
+            "antisymmetric link function modulo the kernel of a homomorphism; bl_angle_is_coboundary: the real formula is one, by spinor overlaps). "
+            "NOT proved: that the integer is the winding number the texture was built with (degree = number of wrappings), sheets with masks / holes, "
+            "and fields whose orientation is not exactly of unit length in rational arithmetic (float textures: the model normalises with a 1e-30 "
+            "square root) - there the blint oracle (winding 1-2, both polarities, uniform rim) stands alone; the stream blsheet ties the theorems' "
+            "hypotheses, as decided by the model, to the real code's charge",
             "a single hedgehog is counted as exactly one Bloch point along every direction (numerical statement through round()): oracle only, "
             ">= 6 cells per axis, cell aspect ratio <= 2, singular point anywhere in the central cell block; smaller or more anisotropic meshes "
-            "do not resolve the singularity (observed: 4-5 cells or aspect 18:1 give 0). PROVED about the count: invariance under a global proper "
-            "rotation (count_bps_rot_invariant), the reversal law tail-to-tail <-> head-to-head with the same total (count_bps_reversal), and the "
-            "counting stage: a rounded flux making one unit step is exactly one Bloch point of the right kind (single_step_is_one_bloch_point); "
-            "that a discretised hedgehog's rounded flux is such a step is the oracle's part",
+            "do not resolve the singularity (observed: 4-5 cells or aspect 18:1 give 0). PROVED about the count: acceptance as an equivalence "
+            "(emergent_count_ok_iff), invariance under a global proper rotation (count_bps_rot_invariant), under translation and rescaling of the mesh "
+            "(count_bps_mesh_invariant) and under per-cell rescaling of the vectors (count_bps_scale_invariant), the reversal law tail-to-tail <-> "
+            "head-to-head with the same total (count_bps_reversal), the arithmetic hh + tt = total, tt - hh = last - first local number, pattern "
+            "decodes to the numbers (count_bps_arithmetic), and the counting stage: a rounded flux making one unit step is exactly one Bloch point of "
+            "the right kind (single_step_is_one_bloch_point); that a discretised hedgehog's rounded flux is such a step is the oracle's part",
             "quarter turn of the sample: PROVED for both methods, every mask, anisotropic cells, open or periodic directions at the level of the "
-            "index map (charge_quarter_turn) and for Field.rotate90 as modelled in C12 for every odd k and either axis order (charge_rotate90) "
-            "with OPEN boundaries; for periodic meshes the link from Mesh.rotate90's bc string rewriting to the turned periodic flags is not "
-            "proved (oracle + correspondence only); half turns (even k) are not stated",
+            "index map (charge_quarter_turn) and for Field.rotate90 as modelled in C12 for every odd k and either axis order, with open boundaries "
+            "(charge_rotate90) and with ANY bc the setter accepts (charge_rotate90_periodic, through Mesh.rotate90's bc rewriting - lower-case "
+            "single-character names only, repo fix be43fa9b - and C05's periodic_turn; hypothesis C05.BcTurns: both names single lower-case characters "
+            "or both axes periodic alike, otherwise the library leaves bc with the name, open finding D57); half turns (even k) are not stated",
             "trace -1 at every frequency: PROVED (demag_trace_fourier: C11's fftn of the model's real-space tensor has trace "
             "-(pi_real/pi_float) * phase of modulus pi_real/|pi_float| in every k-cell). The convolution theorem is PROVED for C11's DFT model "
             "(convolution_theorem) and the code-shaped demag_field (pad, fftn, products, ifftn, crop) is proved equal to the circular = linear "
-            "convolution (demag_field_fft_is_convolution); that scipy.fft implements the DFT contract of C11 is the trusted part",
+            "convolution (demag_field_fft_is_convolution); that scipy.fft implements the DFT contract of C11 is the trusted part. Symmetry N_ab = N_ba "
+            "and the parities of every component under reflection of a coordinate / of a grid index about the central cell are PROVED for the symbolic "
+            "Newell model with the real leaves (demag_tensor_parity, demag_tensor_grid_parity)",
             "leaf functions: the lattice density is re-stated and proved with the REAL solid-angle formula (bl_real_invariances, "
             "bl_real_quarter_turn; no hypothesis on Omega), the angle range with the real arccos (angle_range_real), the square-root "
             "hypotheses are reduced to 'sq is a non-negative square root on the occurring norms' (tcd_scale_invariant_exact_sqrt); the "
@@ -87,8 +103,13 @@ UNPROVED = ["Berg-Luescher integrality for textures wrapping the sphere a whole 
             "vectors, angles from 1e-7 rad to pi - 1e-7 rad, 2 to 4000 cells along an axis - is oracle + correspondence only; vectors shorter than "
             "1e-8 (open finding D121) and integer dtypes (finding D122, fixed in /repo bfc56bb0) are generated by default",
             "sum rule / cube: proved through demag_field and the symbolic Newell tensor for rational leaf functions satisfying the arctangent "
-            "identity (demag_field_cuboid_sum, demag_field_cube_third); with the real leaves the trace is proved (demag_trace) but the "
-            "convolution model is rational-valued, so the real-leaf sum rule is the composition of the two on paper only"]
+            "identity (demag_field_cuboid_sum, demag_field_cube_third), and with the REAL leaves for the linear convolution of the real tensor with a "
+            "uniform magnetisation (cuboid_sum_rule_real: -M pi/pi_float at every cell; cube_third_rule_real: a third each for a cube). The code-shaped "
+            "demag_field model (demagFieldFFT) takes a rational tensor, so that the FFT path computes this linear convolution also for the real "
+            "tensor is the composition of demag_field_fft_is_convolution (any ring embedding of the rationals) with these on paper only",
+            "2-d slices: PROVED that a plane selection of a 3-d three-component field is accepted by both methods and holds the layer's vectors "
+            "(tcd_plane_selection, composing C07's Field.sel model); neighbouring-cell-angle result meshes under rescaling of the mesh are not stated "
+            "(the values do not look at the mesh at all)"]
 BUDGET = {"quick": 85, "thorough": 900}
 
 TOL = 1e-9
@@ -173,6 +194,15 @@ def cases(rng, tier):
         n = rng.choice([10, 12, 14]) if not big else rng.choice([10, 12, 14, 16, 20])
         yield dict(kind="blint", n=[n, n + rng.choice([0, 2])], wind=rng.choice([1, 1, 2]), pol=rng.choice([1, -1]),
                    cell=[float(c) for c in gen_cells(rng, 2)], sub=rng.getrandbits(32), lens=LENS_ALL[(k * 3) % len(LENS_ALL)])
+    # --- closed sheets of EXACT unit vectors (integer vectors with integer norms): the hypotheses of the integrality theorems
+    # (bl_charge_half_integer / bl_charge_integer) are decided by the model, the charge is the real code's
+    for k in range(12 if not big else 80):
+        tex = ["ratsky", "rough", "ratsky2", "ratsky", "rough4", "ratsky"][k % 6]
+        n = [rng.randint(7, 12), rng.randint(7, 12)] if tex.startswith("ratsky") else [rng.randint(3, 6), rng.randint(3, 6)]
+        if tex == "rough4":
+            n = [4, 4]
+        yield dict(kind="blsheet", tex=tex, n=n, pol=rng.choice([1, -1]), cell=[float(c) for c in gen_cells(rng, 2)],
+                   scale=rng.choice([1, 1, 2, 3]), sub=rng.getrandbits(32))
     # --- emergent field
     for k in range(24 if not big else 200):
         spec = gen_mesh(rng, 3, nmin=1 if k % 4 == 0 else 2, nmax=4 if not big else 5, max_cells=36 if not big else 100, names=NAMES3,
@@ -661,6 +691,58 @@ def run_blint(case, rng, obs, fail):
     return obs
 
 
+def pyth(p, q, r):
+    """integer vector of integer length p^2+q^2+r^2 (inverse stereographic image of (p/q, r/q))"""
+    return (2 * p * q, 2 * r * q, q * q - p * p - r * r)
+
+
+def sheet_texture(case, rng):
+    n0, n1 = case["n"]
+    pol, tex = case["pol"], case["tex"]
+    arr = np.zeros((n0, n1, 3))
+    rim = (0, 0, -pol)
+    if tex.startswith("ratsky"):
+        Rd = min(n0, n1) - 1          # radius in half-cell units: the outermost layer of cells is rim
+        for i in range(n0):
+            for j in range(n1):
+                X, Y = 2 * i - (n0 - 1), 2 * j - (n1 - 1)
+                q = Rd * Rd - X * X - Y * Y
+                if q <= 0 or i in (0, n0 - 1) or j in (0, n1 - 1):
+                    arr[i, j] = rim
+                    continue
+                p, r = (Rd * X, Rd * Y) if tex == "ratsky" else (X * X - Y * Y, 2 * X * Y)
+                v = pyth(p, q, r)
+                arr[i, j] = (v[0], v[1], pol * v[2])
+    else:
+        tet = [(1, 1, 1), (1, -1, -1), (-1, 1, -1), (-1, -1, 1)]      # not of integer length: only the model's 1e-30 square root applies
+        rng.shuffle(tet)
+        for i in range(n0):
+            for j in range(n1):
+                if i in (0, n0 - 1) or j in (0, n1 - 1):
+                    arr[i, j] = rim
+                elif tex == "rough4":
+                    arr[i, j] = pyth(*[(1, 2, 1), (-1, 2, 1), (1, 2, -1), (-1, 2, -1), (2, 1, 2), (-2, 1, 1)][rng.randrange(6)])
+                else:
+                    v = pyth(rng.randint(-3, 3), rng.randint(1, 3), rng.randint(-3, 3))
+                    s = [rng.choice([1, -1]) for _ in range(3)]
+                    perm = rng.sample(range(3), 3)
+                    arr[i, j] = tuple(s[c] * v[perm[c]] for c in range(3))
+    return arr * case["scale"], rim
+
+
+def run_blsheet(case, rng, obs, fail):
+    n, cell = case["n"], case["cell"]
+    mesh = df.Mesh(p1=(0.0, 0.0), p2=(n[0] * cell[0], n[1] * cell[1]), n=n)
+    arr, rim = sheet_texture(case, rng)
+    f = df.Field(mesh, nvdim=3, value=arr)
+    obs["field"] = fieldio.field_json(f)
+    obs["rim"] = [Q(Fraction(int(x))) for x in rim]
+    obs["Q"] = float(dft.topological_charge(f, method="berg-luescher"))
+    obs["tags"] += [f"sheet:{case['tex']}"]
+    obs["nontrivial"] = True
+    return obs
+
+
 def run_emergent(case, rng, obs, fail):
     mesh = fieldio.build_mesh(case["mesh"])
     n = tuple(int(x) for x in mesh.n)
@@ -1038,7 +1120,7 @@ def run_refuse(case, rng, obs, fail):
     return obs
 
 
-RUN = dict(tcd=run_tcd, blint=run_blint, emergent=run_emergent, angle=run_angle, bps=run_bps, dtensor=run_dtensor,
+RUN = dict(tcd=run_tcd, blint=run_blint, blsheet=run_blsheet, emergent=run_emergent, angle=run_angle, bps=run_bps, dtensor=run_dtensor,
            dfield=run_dfield, cuboid=run_cuboid, refuse=run_refuse)
 
 
@@ -1081,6 +1163,8 @@ def model_requests(case, obs):
                 dict(op="tcd", field=obs["field"], method="berg-luescher", pi=PI_Q),
                 dict(op="tcd", field=obs["field"], method="lattice", pi=PI_Q),
                 dict(op="orientation", field=obs["field"])]
+    if k == "blsheet":
+        return [dict(op="bl_sheet", field=obs["field"], rim=obs["rim"])]
     if k == "emergent":
         return [dict(op="emergent", field=obs["field"])]
     if k == "angle":
@@ -1159,6 +1243,18 @@ def compare(case, obs, rs):
     dis = []
     k = case["kind"]
     if not rs:
+        return dis
+    if k == "blsheet":
+        (r,) = rs
+        if "ok" not in r:
+            return [f"bl_sheet: model {r}"]
+        closed, smooth, ch = r["ok"]["closed"], r["ok"]["smooth"], obs["Q"]
+        obs["tags"].append(f"closed:{closed}/smooth:{smooth}/2Q:{round(2 * ch)}")
+        # bl_charge_half_integer: on a closed sheet 2Q is an integer; bl_charge_integer: on a closed smooth sheet Q is
+        if closed and abs(2 * ch - round(2 * ch)) > 1e-9:
+            dis.append(f"model: closed sheet => 2Q integer (bl_charge_half_integer); impl Berg-Luescher charge {ch!r}")
+        if closed and smooth and abs(ch - round(ch)) > 1e-9:
+            dis.append(f"model: closed smooth sheet => Q integer (bl_charge_integer); impl Berg-Luescher charge {ch!r}")
         return dis
     if k == "tcd":
         rc, rb, ro, rori = rs
